@@ -32,7 +32,16 @@ class Reports(list):
     parse_errors: list = []
 
 
-def install(world):
+def install(world, log_only=None):
+    """log_only: the event types the global configuration selects for event.log (log_sim_config); None = the default (all)"""
+    world._log_only = None
+    if log_only:
+        from nrel.hive.reporting.report_type import ReportType
+
+        keep = frozenset(ReportType.from_string(t) for t in log_only)
+        cfg = world.env.config
+        world.env = world.env._replace(config=cfg._replace(global_config=cfg.global_config._replace(log_sim_config=keep)))
+        world._log_only = frozenset(t.lower() for t in log_only)
     d = scratch_dir("hivemc_c19_")
     atexit.register(shutil.rmtree, d, True)
     world._logdir = d
@@ -63,6 +72,17 @@ def logged_step(world, sim, events):
             lines.append(json.loads(ln))
         except Exception as e:
             errs.append(f"{type(e).__name__}: {ln[:120]}")
+    if world._log_only is not None:
+        # a selective log: what is written must be of the selected types only; for the judgement the lines of the unselected types are
+        # supplied from the step's own reports (exactly what the log would have held), so that every clause still applies -- in
+        # particular the station load, which is computed from the step's charge events whether or not those are selected for the log
+        for ln in lines:
+            if str(ln.get("report_type", "")).lower() not in world._log_only:
+                errs.append(f"UnselectedTypeLogged: {str(ln)[:120]}")
+        for r in reports:
+            nm = r.report_type.name.lower()
+            if nm != "instruction" and nm not in world._log_only:
+                lines.append(json.loads(json.dumps(r.as_json(), default=str)))
     reports.raw_lines = raw
     reports.lines = lines
     reports.parse_errors = errs
@@ -80,9 +100,10 @@ def logged_step(world, sim, events):
 
 class LogResWorld(ResWorld):
     def __init__(self, **kw):
+        log_only = kw.pop("log_only", None)
         super().__init__(**kw)
         self.name = kw.get("name") or "W-res/log"
-        install(self)
+        install(self, log_only)
 
     def step(self, sim, events):
         return logged_step(self, sim, events)
@@ -127,8 +148,12 @@ def make_req(**kw):
 # end-to-end cross-check: a scenario loaded by load_scenario (handlers installed by the library itself), run linearly
 
 
-def linear_cross_check(scenario: str, nsteps: int):
-    """returns (stats dict, list of (clause, message)); whole-run sums of the written event.log vs the final state"""
+def linear_cross_check(scenario: str, nsteps: int, primer: bool = True):
+    """returns (stats dict, list of (clause, message)); whole-run sums of the written event.log vs the final state.
+    primer: ANOTHER scenario is loaded, run and closed in this very process first (a notebook, a batch worker, a restarted
+    co-simulation): whatever the reporting stack keeps per process then shows in this run's summary"""
+    if primer:
+        linear_cross_check("S1", 12, primer=False)
     import glob
     import json as _json
 
